@@ -202,12 +202,13 @@ def _task_hist(arg):
 
 
 def run_histories(run):
-    """quick: all histories of length <= 2 over the full event menu and a pool of 3, plus all histories of length <= 3 over the
-    reduced menu and a pool of 2; thorough: length <= 3 full menu (pool of 3) plus length <= 4 reduced menu"""
+    """quick: all histories of length <= 2 over the full event menu and a pool of 3, all histories of length <= 3 over the
+    reduced menu and a pool of 2, class pool to length 2; thorough: length <= 3 over a pool of 3 (full menu for the first two
+    events, reduced for the third), the reduced pool-of-2 plan, class pool to length 3"""
     if run.tier == 'quick':
         plans = [(POOL0, 2, 99, False), (POOL0[:2], 3, 0, True), (CLS_POOL, 2, 0, 'cls')]
     else:
-        plans = [(POOL0, 3, 99, False), (POOL0[:2], 4, 0, True), (CLS_POOL, 4, 0, 'cls')]
+        plans = [(POOL0, 3, 2, False), (POOL0[:2], 3, 0, True), (CLS_POOL, 3, 0, 'cls')]
     tot = {}
     desc = []
     for pool0, depth, reduced_from, red_first in plans:
